@@ -70,11 +70,19 @@ def floors(tier):
             'history_calls_compared': 1500, 'db_snapshots_compared': 1500, 'hist:mode:strict': 300,
             'hist:mode:tolerant': 300, 'hist:outcome:parse_error': 30, 'verbatim_arg_documents': 10,
             'context_extending_documents': 9, 'parses_with_shared_parser_object': 200,
-            'parser_class_context_documents': 50, 'order_sensitive_triples': 4}
+            'parser_class_context_documents': 50, 'order_sensitive_triples': 4, 'parses_on_a_used_walker_object': 200, 'parses_from_configured_start_state': 100}
 
 
 def setup(rec):
     pass
+
+
+START_STATES = work.PS_CONFIGS + [
+    {'latex_inline_math_delimiters': [['$', '$'], ['\\(', '\\)'], ['$$', '$$']], 'latex_display_math_delimiters': [['\\[', '\\]']]},
+    {'latex_inline_math_delimiters': [['$', '$']], 'latex_display_math_delimiters': [['\\(', '\\)'], ['$$', '$$'], ['\\[', '\\]']]},
+    {'latex_inline_math_delimiters': [], 'latex_display_math_delimiters': [['$', '$'], ['\\(', '\\)'], ['$$', '$$'], ['\\[', '\\]']]},
+    {'latex_group_delimiters': [['{', '}'], ['<', '>']], 'enable_comments': False},
+]
 
 
 def fresh_reference(req):
@@ -149,11 +157,12 @@ def check_case(case, rec, refs=None):
         s, tol = call[0], call[1]
         cdesc = call[2] if len(call) > 2 else case['ctx']
         shared = bool(call[3]) if len(call) > 3 else bool(case.get('shared_parser'))
+        psopts = call[4] if len(call) > 4 else None
         ctx = work.ctx_for(cdesc)
-        key = (s, tol, json.dumps(cdesc, sort_keys=True))
+        key = (s, tol, json.dumps(cdesc, sort_keys=True), json.dumps(psopts, sort_keys=True))
         if key not in refs:
             try:
-                refs[key] = fresh_reference({'s': s, 'ctx': cdesc, 'tolerant': tol})
+                refs[key] = fresh_reference({'s': s, 'ctx': cdesc, 'tolerant': tol, 'psopts': psopts})
                 rec.monitor('fresh_interpreter_references')
             except Exception as e:
                 rec.inconclusive_case('no reference for %r: %s' % (s, e))
@@ -161,9 +170,16 @@ def check_case(case, rec, refs=None):
         ref = refs[key]
         before = db_snapshot(ctx)
         gbefore = interpreter_state()
-        PROCESS_LOG.append([s, tol, cdesc, shared])
+        PROCESS_LOG.append([s, tol, cdesc, shared, psopts])
+        if psopts:
+            rec.monitor('parses_from_configured_start_state')
+            rec.hist('start_state', json.dumps(psopts, sort_keys=True)[:80])
+        reuse_walker = (len(PROCESS_LOG) % 5 == 0)
+        if reuse_walker:
+            rec.monitor('parses_on_a_used_walker_object')
         got = json.loads(json.dumps(one_parse({'s': s, 'ctx': cdesc, 'tolerant': tol,
-                                               'shared_parser': shared})))
+                                               'shared_parser': shared, 'reuse_walker': reuse_walker,
+                                               'psopts': psopts})))
         if shared:
             rec.monitor('parses_with_shared_parser_object')
         after = db_snapshot(ctx)
@@ -234,6 +250,11 @@ def run_shard(desc, rec):
         refs = refs_by_ctx.setdefault(json.dumps(cdesc), {})
         L = rng.randint(10, desc['maxlen'])
         calls = [[rng.choice(docs), rng.random() < 0.5] for _ in range(L)]
+        # "the same flags": some parses start from a configured parsing state (the same documents under the default one
+        # are in the history too); among the configurations, math delimiter lists that classify the default pairs differently
+        for c in calls:
+            if rng.random() < 0.3:
+                c += [cdesc, bool(h % 2), rng.choice(START_STATES)]
         rec.case(L)
         case = {'ctx': cdesc, 'calls': calls, 'shared_parser': bool(h % 2)}
         if h == 0:
